@@ -1048,10 +1048,11 @@ impl SecureMemoryPool {
             .local_caches
             .get_or(|| RefCell::new(LocalCache::new(self.config.local_cache_size)));
 
-        if local_cache.borrow_mut().try_push(chunk).is_err() {
-            // Local cache full, try global stack
-            // SAFETY: try_push() just failed at line 992, guaranteeing cache has at least one element
-            let chunk = local_cache.borrow_mut().try_pop().unwrap();
+        let pushed = local_cache.borrow_mut().try_push(chunk);
+        if let Err(chunk) = pushed {
+            // Local cache full (or disabled with local_cache_size == 0): the chunk being freed
+            // goes to the global stack.  (Dropping it here would leak it - SecureChunk has no
+            // Drop - and popping a replacement from an empty cache used to panic.)
             self.global_stack.push(chunk);
         }
 
@@ -1259,8 +1260,9 @@ impl SecureMemoryPool {
         // due to RefCell not being Sync. Thread-local caches will be cleared
         // when threads exit or when they access the cache and find it should be cleared.
 
-        // Clear allocation tracking
-        self.active_allocations.clear();
+        // The tracking table only lists chunks that are currently handed out; they are owned by
+        // their SecurePooledPtr guards and must stay registered, otherwise their eventual release
+        // is mistaken for a double free and the chunk is leaked.
 
         Ok(())
     }
@@ -1305,6 +1307,18 @@ impl SecureMemoryPool {
 impl Drop for SecureMemoryPool {
     fn drop(&mut self) {
         let _ = self.clear();
+
+        // Chunks parked in the per-thread caches belong to the pool as well.  With exclusive
+        // access every thread's cache can be reached; release what they hold (SecureChunk has no
+        // Drop of its own, so dropping the caches would leak the memory).
+        let (zero_on_free, enable_simd_ops, simd_threshold) = (
+            self.config.zero_on_free,
+            self.config.enable_simd_ops,
+            self.config.simd_threshold,
+        );
+        for cache in self.local_caches.iter_mut() {
+            cache.get_mut().clear(zero_on_free, enable_simd_ops, simd_threshold);
+        }
     }
 }
 
